@@ -52,6 +52,8 @@ class State:
             for c in cond.args:
                 ok = self.assume(c) and ok
             return ok
+        if cond.op == '=>' and self.known(cond.args[0]) is True:
+            return self.assume(cond.args[1])
         k = cond.smt()
         if k in self.pcset:
             return True
